@@ -239,11 +239,36 @@ def r6_2(repo: Repo) -> RuleResult:
     return rr
 
 
-RULES = [r6_1, r6_2, r6_3]
+def r6_4(repo: Repo) -> RuleResult:
+    from ..effects import Effects
+
+    rr = RuleResult("R6.4", "`+` builds a new model and leaves both operands as they were", floor=1)
+    c = repo.cls("vectorizers/ngram_vectorizer.py", "NgramVectorizer")
+    add = repo.resolve_method(c, "__add__")
+    eff = Effects(repo)
+    s = eff.summary(add, c)
+    bad = [m for m in s.mutations if m.root.startswith("A:") or m.root == "P:other"]
+    if not bad:
+        rr.ok(add, "operands", "no statement reachable from __add__ mutates an attribute of self or other (%d mutations on private copies)" % len(s.mutations), add.node.lineno)
+    seen = set()
+    for m in bad:
+        key = (m.root, m.what)
+        if key in seen:
+            continue
+        seen.add(key)
+        line = int(m.where.split(":", 1)[1].split(" ", 1)[0])
+        who = "the left operand's `%s`" % m.root[2:] if m.root.startswith("A:") else "the right operand"
+        rr.bad(add, "%s on %s" % (m.what, m.root.split(":", 1)[1]),
+               "%s modifies %s in place: after `a + b` the model `a` itself has changed (its dictionaries no longer match its matrix), "
+               "and the sum no longer behaves like a model fitted on the concatenated corpora" % (m.what, who), line)
+    return rr
+
+
+RULES = [r6_1, r6_2, r6_3, r6_4]
 CLAIM = (
     "R6.2 the skip-gram decode modulus equals the encode multiplier (symbolic, with the length fact len(window_sizes) = len(frequencies) + 1 derived from both registered window functions); R6.1 a small kinds checker infers, from the fit path, whether each fitted dictionary attribute maps labels to indices or "
     "indices to labels (dict(zip(A, range)), enumerate comprehensions, items() flips, .copy(), returns of the preprocessing "
-    "functions) and requires every other assignment to the same attribute - in particular in NgramVectorizer.__add__ - to have the same kind (and the kind its documented name declares); R6.3 ngrams_of enumerates sequence[i : i + n] for every i with the guard i + n <= len(sequence) (symbolic), subgram lengths 1..n."
+    "functions) and requires every other assignment to the same attribute - in particular in NgramVectorizer.__add__ - to have the same kind (and the kind its documented name declares); R6.3 ngrams_of enumerates sequence[i : i + n] for every i with the guard i + n <= len(sequence) (symbolic), subgram lengths 1..n; R6.4 `__add__` mutates neither operand (alias + effect analysis)."
 )
 NOT_DECIDED = (
     "the counts themselves and EdgeList duplicate summation."
